@@ -5,8 +5,8 @@
    and longer random ones (-simulate); tools render each program as LPC in several equivalent spellings.      *)
 EXTENDS LpcSem, Json
 CONSTANTS Ints, Strs, Arrs, MaxTok, MaxStack, Sim
-VARIABLES stack, code
-vars == <<stack, code>>
+VARIABLES stack, code, types          \* types: the static type of each stack entry ("i" "s" "a", "m" = mixed)
+vars == <<stack, code, types>>
 Pick(X) == IF Sim THEN {RandomElement(X)} ELSE X
 Tok(r) == code' = Append(code, r)
 More == Len(code) < MaxTok
@@ -15,14 +15,40 @@ Pop(k) == SubSeq(stack, 1, Len(stack) - k)
 Small(x) == IF x.t = "i" THEN (x.v >= -20000 /\ x.v <= 20000) ELSE TRUE          \* keep the model inside TLC's integers
 ArrOf(q) == A(q)                     \* the pool holds sequences of tagged values
 
-Init == stack = <<>> /\ code = <<>>
-PushInt == /\ More /\ Len(stack) < MaxStack /\ \E n \in Pick(Ints) : stack' = Append(stack, I(n)) /\ Tok([k |-> "int", v |-> n])
-PushStr == /\ More /\ Len(stack) < MaxStack /\ \E q \in Pick(Strs) : stack' = Append(stack, S(q)) /\ Tok([k |-> "str", v |-> q])
-PushArr == /\ More /\ Len(stack) < MaxStack /\ \E q \in Pick(Arrs) : stack' = Append(stack, ArrOf(q)) /\ Tok([k |-> "arr", v |-> q])
+TT(k) == types[Len(types) - k]
+PopT(k) == SubSeq(types, 1, Len(types) - k)
+\* what the compiler accepts (it rejects ill-typed operands even in branches that are never evaluated)
+\* "ax" / "sx": an array / a string produced by a binary operator; with operands of unknown static type (mixed
+\* variables) the compiler types such results as int, so they are never indexed or ranged in the generated programs
+N(t) == IF t = "ax" THEN "a" ELSE IF t = "sx" THEN "s" ELSE t
+\* (array & array is left out: the order of the elements of an intersection is not specified)
+Adm(op) == CASE op = "add" -> {"i", "s", "a", "m"} [] op = "sub" -> {"i", "a", "m"}
+             [] op \in {"lt", "le", "gt", "ge", "eq", "ne"} -> {"i", "s", "m"} [] OTHER -> {"i", "m"}
+Compat(op, a, b) ==
+  IF a = "m" \/ b = "m" THEN TRUE
+  ELSE IF a = "i" /\ b = "i" THEN TRUE
+  ELSE IF op = "add" THEN <<a, b>> \in {<<"s", "s">>, <<"s", "i">>, <<"i", "s">>, <<"a", "a">>}
+  ELSE a = b
+\* - and & : an array on one side only (the other of unknown type) is not generated
+OkBin(op, a, b) == /\ N(a) \in Adm(op) /\ N(b) \in Adm(op) /\ Compat(op, N(a), N(b))
+                   /\ ~(op \in {"sub", "and"} /\ (N(a) = "a") # (N(b) = "a"))
+\* the static type the compiler gives the result
+TypeBin(op, a, b) ==
+  IF op \in {"lt", "le", "gt", "ge", "eq", "ne"} THEN "i"
+  ELSE IF op = "add" THEN
+         (IF N(a) = "a" \/ N(b) = "a" THEN "ax"
+          ELSE IF N(a) = "s" \/ N(b) = "s" THEN "sx" ELSE "i")          \* (mixed + int is typed int by the compiler)
+  ELSE IF op \in {"sub", "and"} /\ N(a) = "a" /\ N(b) = "a" THEN "ax"
+  ELSE "i"
+Init == stack = <<>> /\ code = <<>> /\ types = <<>>
+PushInt == /\ More /\ Len(stack) < MaxStack /\ \E n \in Pick(Ints) : stack' = Append(stack, I(n)) /\ types' = Append(types, "i") /\ Tok([k |-> "int", v |-> n])
+PushStr == /\ More /\ Len(stack) < MaxStack /\ \E q \in Pick(Strs) : stack' = Append(stack, S(q)) /\ types' = Append(types, "s") /\ Tok([k |-> "str", v |-> q])
+PushArr == /\ More /\ Len(stack) < MaxStack /\ \E q \in Pick(Arrs) : stack' = Append(stack, ArrOf(q)) /\ types' = Append(types, "a") /\ Tok([k |-> "arr", v |-> q])
 BinOps == {"add", "sub", "mul", "div", "mod", "and", "or", "xor", "shl", "shr", "lt", "le", "gt", "ge", "eq", "ne"}
 DoBin == /\ More /\ Len(stack) >= 2
          /\ \E op \in Pick(BinOps) :
               LET r == Bin(op, Top(1), Top(0)) IN
+              /\ OkBin(op, TT(1), TT(0)) /\ types' = Append(PopT(2), TypeBin(op, TT(1), TT(0)))
               /\ Small(r) /\ ~(op \in {"shl", "shr"} /\ ~(Top(0).t = "i" /\ Top(0).v \in 0..8 /\ Top(1).t = "i"))
               /\ ~(op \in {"eq", "ne"} /\ Top(0).t # Top(1).t)           \* comparing different types: not generated
               /\ ~(op \in {"eq", "ne", "lt", "le", "gt", "ge"} /\ Top(0).t = "a")
@@ -31,18 +57,19 @@ DoBin == /\ More /\ Len(stack) >= 2
 DoUn == /\ More /\ Len(stack) >= 1
         /\ \E op \in Pick({"not", "neg", "compl", "sizeof"}) :
               LET r == Un(op, Top(0)) IN
-              /\ ~(r.t = "e" /\ r.v = "type") /\ ~(op = "sizeof" /\ Top(0).t = "i") /\ ~(op = "not" /\ Top(0).t = "a")
+              /\ ~(r.t = "e" /\ r.v = "type") /\ ~(op = "sizeof" /\ TT(0) \in {"i", "m"}) /\ ~(op = "not" /\ TT(0) \in {"a", "m"})
+              /\ (op \in {"neg", "compl"} => TT(0) = "i") /\ types' = Append(PopT(1), "i")
               /\ stack' = Append(Pop(1), r) /\ Tok([k |-> "un", v |-> op])
 DoLazy == /\ More /\ Len(stack) >= 2
           /\ \E op \in Pick({"land", "lor"}) :
-               /\ Top(0).t \in {"i", "e"} /\ Top(1).t \in {"i", "e"}
+               /\ TT(0) = "i" /\ TT(1) = "i" /\ types' = Append(PopT(2), "i")
                /\ stack' = Append(Pop(2), IF op = "land" THEN LAnd(Top(1), Top(0)) ELSE LOr(Top(1), Top(0)))
                /\ Tok([k |-> "lazy", v |-> op])
-DoCond == /\ More /\ Len(stack) >= 3 /\ Top(2).t \in {"i", "e"}
+DoCond == /\ More /\ Len(stack) >= 3 /\ TT(2) = "i" /\ TT(1) = TT(0) /\ types' = Append(PopT(3), TT(0))
           /\ stack' = Append(Pop(3), Cond(Top(2), Top(1), Top(0))) /\ Tok([k |-> "cond", v |-> "cond"])
-DoIndex == /\ More /\ Len(stack) >= 2 /\ Top(1).t \in {"a", "s", "e"} /\ Top(0).t \in {"i", "e"}
+DoIndex == /\ More /\ Len(stack) >= 2 /\ TT(1) \in {"a", "s"} /\ TT(0) = "i" /\ types' = Append(PopT(2), IF TT(1) = "s" THEN "i" ELSE "m")
            /\ \E fe \in Pick(BOOLEAN) : stack' = Append(Pop(2), Index(Top(1), Top(0), fe)) /\ Tok([k |-> "index", v |-> fe])
-DoRange == /\ More /\ Len(stack) >= 3 /\ Top(2).t \in {"a", "s", "e"} /\ Top(1).t \in {"i", "e"} /\ Top(0).t \in {"i", "e"}
+DoRange == /\ More /\ Len(stack) >= 3 /\ TT(2) \in {"a", "s"} /\ TT(1) = "i" /\ TT(0) = "i" /\ types' = Append(PopT(3), TT(2))
            /\ \E ie \in Pick(BOOLEAN), je \in Pick(BOOLEAN) :
                 /\ stack' = Append(Pop(3), Range(Top(2), Top(1), ie, Top(0), je)) /\ Tok([k |-> "range", ie |-> ie, je |-> je])
 Stutter == ~More /\ UNCHANGED vars
